@@ -195,6 +195,7 @@ func rulesExtract(p *Prog, r *Report, eng *Engine) {
 		}
 	}
 	nestedOK := false
+	collectorResult := false
 	if flatCall == nil {
 		// the flattening written in place: for _, alt := range expansion { for _, n := range alt { out = append(out, text(n)) } }
 		for _, al := range findAppendLoops(host) {
@@ -235,7 +236,20 @@ func rulesExtract(p *Prog, r *Report, eng *Engine) {
 			r.OK("E1", "ExtractLicenses|one string per node", p.pos(ext.Pos()), "full range, unconditional", "in place", true)
 		}
 		if !nestedOK {
-			r.Unknown("E1", "ExtractLicenses|flatten", p.pos(ext.Pos()), "kind=undecided: no call that flattens the expansion was found")
+			// the same with an ordered-set collector object: two nested full ranges over the expansion whose body
+			// hands the text of the current node to c.add(text), c being a collector freshly constructed here
+			// whose items field is what ExtractLicenses returns
+			if why, at, ok := collectorPipeline(p, qz, host); ok {
+				nestedOK = true
+				collectorResult = true
+				r.OK("E1", "ExtractLicenses|flatten-arg", p.pos(at), "nested full ranges over the whole expansion of the parsed argument", "collector", true)
+				r.OK("E1", "flatten|concatenates all", p.pos(at), "every term of every alternative is visited unconditionally", "", true)
+				r.OK("E1", "ExtractLicenses|one string per node", p.pos(ext.Pos()), "full range, unconditional", "collector.add", true)
+			} else if why != "" {
+				r.Bad("E1", "ExtractLicenses|flatten", p.pos(ext.Pos()), "the texts are handed to a collector, but "+why)
+			} else {
+				r.Unknown("E1", "ExtractLicenses|flatten", p.pos(ext.Pos()), "kind=undecided: no call that flattens the expansion was found")
+			}
 		}
 	} else {
 		pv := qz.prov(flatCall.Call.Args[0], 0)
@@ -421,6 +435,12 @@ func rulesExtract(p *Prog, r *Report, eng *Engine) {
 					continue
 				}
 				pv := qz.prov(ret.Results[0], 0)
+				if collectorResult {
+					// collectorPipeline has checked that what is returned is the collector's items
+					fusedDedup = true
+					r.OK("E1", "ExtractLicenses|result", p.pos(ret.Pos()), "the items of the ordered-set collector", "", false)
+					continue
+				}
 				if fusedFn != nil {
 					dc, isCall := ret.Results[0].(*ssa.Call)
 					if (fusedFn == ext && ret.Results[0] == fusedAcc) || (isCall && dc.Call.StaticCallee() == fusedFn) {
@@ -1030,4 +1050,300 @@ func testAndInsertHelper(p *Prog, h *ssa.Function) (int, int, bool) {
 		return 0, 0, false
 	}
 	return 0, 0, false
+}
+
+// collectorPipeline recognises, in fn, the pipeline written with an ordered-set collector:
+//
+//	c := newCollector()                       // fresh object: empty map, empty list
+//	for _, alt := range expansion { for _, n := range alt { c.add(text(n)) } }
+//	return c.items, nil
+//
+// where add is a method that looks its argument up in the map field, returns when it is present, and
+// otherwise inserts it and appends it to the list field — and nothing else touches the collector. ok is true
+// when all of it holds; otherwise why says what differs ("" when there is no collector at all).
+func collectorPipeline(p *Prog, qz *quantizer, fn *ssa.Function) (why string, at token.Pos, ok bool) {
+	for _, b := range fn.Blocks {
+		for _, in := range b.Instrs {
+			c, isCall := in.(*ssa.Call)
+			if !isCall || c.Call.StaticCallee() == nil || len(c.Call.Args) != 2 {
+				continue
+			}
+			mapF, listF, isAdd := collectorAdd(p, c.Call.StaticCallee())
+			if !isAdd {
+				continue
+			}
+			at = c.Pos()
+			// the collector: result of a constructor that returns a fresh object with an empty map and list
+			ctorCall, isCtor := c.Call.Args[0].(*ssa.Call)
+			if !isCtor || ctorCall.Call.StaticCallee() == nil || !freshCollector(p, ctorCall.Call.StaticCallee(), mapF, listF) {
+				return "the collector is not freshly constructed with an empty set and list", at, false
+			}
+			// the text handed over
+			pv := qz.prov(c.Call.Args[1], 0)
+			if !(strings.Contains(pv, "reconstructedLicenseString(elem(") || strings.Contains(pv, ").reconstructedLicenseString(")) {
+				return "what is added is not the canonical text of the current node: " + pv, at, false
+			}
+			// inner and outer full ranges, both unconditional
+			inner, innerColl := innermostRangeLoop(fn, c.Block())
+			if inner == nil {
+				return "the add call is not inside a range loop", at, false
+			}
+			for _, pr := range inner.Preds {
+				if inner.Dominates(pr) && !(c.Block() == pr || c.Block().Dominates(pr)) {
+					return "a text is added only conditionally", at, false
+				}
+			}
+			ld, isLd := innerColl.(*ssa.UnOp)
+			if !isLd || ld.Op != token.MUL {
+				return "the inner loop does not range over an alternative of the expansion", at, false
+			}
+			ia, isIA := ld.X.(*ssa.IndexAddr)
+			if !isIA || isRangeIndexOf(ia.Index, ia.X) != nil {
+				return "the inner loop does not range over an alternative of the expansion", at, false
+			}
+			xv := qz.prov(ia.X, 0)
+			if !expandCollRe.MatchString(strings.Replace(xv, "param:expression", "param:testExpression", 1)) {
+				return "the outer loop does not range over the whole expansion of the parsed expression: " + xv, at, false
+			}
+			outer := rangeHeaderOf(ia.Index)
+			if outer == nil {
+				return "no outer range loop", at, false
+			}
+			for _, pr := range outer.Preds {
+				if outer.Dominates(pr) && !(inner == pr || inner.Dominates(pr)) {
+					return "an alternative is skipped", at, false
+				}
+			}
+			// uses of the collector: this add call and one load of the list field that is returned
+			returned := false
+			for _, ref := range *ctorCall.Referrers() {
+				switch x := ref.(type) {
+				case *ssa.Call:
+					if x != c {
+						return "the collector is used by another call", at, false
+					}
+				case *ssa.FieldAddr:
+					if x.Field != listF {
+						return "a field of the collector other than its list is accessed", at, false
+					}
+					for _, rr := range *x.Referrers() {
+						l2, isL := rr.(*ssa.UnOp)
+						if !isL || l2.Op != token.MUL {
+							return "the collector's list is written outside add", at, false
+						}
+						for _, r3 := range *l2.Referrers() {
+							if _, isRet := r3.(*ssa.Return); isRet {
+								returned = true
+							} else if _, isDbg := r3.(*ssa.DebugRef); !isDbg {
+								return "the collector's list is used before it is returned", at, false
+							}
+						}
+					}
+				case *ssa.DebugRef:
+				default:
+					return fmt.Sprintf("the collector is used by %T", ref), at, false
+				}
+			}
+			if !returned {
+				return "the collector's list is not what is returned", at, false
+			}
+			return "", at, true
+		}
+	}
+	return "", token.NoPos, false
+}
+
+// collectorAdd: h is a method (*T).add(x string) whose body is: look x up in map field m of the receiver;
+// if present return; otherwise m[x] = …; list field l = append(l, x). Returns the field indices of m and l.
+func collectorAdd(p *Prog, h *ssa.Function) (int, int, bool) {
+	if h == nil || !p.InModule(h) || len(h.Params) != 2 || h.Signature.Results().Len() != 0 || !isStringType(h.Params[1].Type()) {
+		return 0, 0, false
+	}
+	recv, item := ssa.Value(h.Params[0]), ssa.Value(h.Params[1])
+	fieldOfRecv := func(v ssa.Value) (int, bool) {
+		ld, ok := v.(*ssa.UnOp)
+		if !ok || ld.Op != token.MUL {
+			return 0, false
+		}
+		fa, ok := ld.X.(*ssa.FieldAddr)
+		if !ok || fa.X != recv {
+			return 0, false
+		}
+		return fa.Field, true
+	}
+	mapF, listF := -1, -1
+	var lk *ssa.Lookup
+	var upd *ssa.MapUpdate
+	var app *ssa.Call
+	for _, b := range h.Blocks {
+		for _, in := range b.Instrs {
+			switch t := in.(type) {
+			case *ssa.Lookup:
+				f, ok := fieldOfRecv(t.X)
+				if !ok || t.Index != item || !t.CommaOk || lk != nil {
+					return 0, 0, false
+				}
+				lk, mapF = t, f
+			case *ssa.MapUpdate:
+				f, ok := fieldOfRecv(t.Map)
+				if !ok || t.Key != item || upd != nil {
+					return 0, 0, false
+				}
+				if mapF >= 0 && f != mapF {
+					return 0, 0, false
+				}
+				upd = t
+			case *ssa.Store:
+				fa, ok := t.Addr.(*ssa.FieldAddr)
+				if !ok {
+					// the varargs cell of the append
+					continue
+				}
+				if fa.X != recv || listF >= 0 {
+					return 0, 0, false
+				}
+				c, ok := t.Val.(*ssa.Call)
+				if !ok {
+					return 0, 0, false
+				}
+				if bi, ok := c.Call.Value.(*ssa.Builtin); !ok || bi.Name() != "append" {
+					return 0, 0, false
+				}
+				f0, ok := fieldOfRecv(c.Call.Args[0])
+				if !ok || f0 != fa.Field {
+					return 0, 0, false
+				}
+				elems, _ := appendedElems(c)
+				if len(elems) != 1 || elems[0] != item {
+					return 0, 0, false
+				}
+				app, listF = c, fa.Field
+			case ssa.CallInstruction:
+				if bi, ok := t.Common().Value.(*ssa.Builtin); !ok || bi.Name() != "append" {
+					return 0, 0, false
+				}
+			}
+		}
+	}
+	if lk == nil || upd == nil || app == nil || mapF < 0 || listF < 0 {
+		return 0, 0, false
+	}
+	// the update and the append run exactly on the not-found edge
+	for _, b := range h.Blocks {
+		ifi, ok := b.Instrs[len(b.Instrs)-1].(*ssa.If)
+		if !ok {
+			continue
+		}
+		ex, ok := ifi.Cond.(*ssa.Extract)
+		if !ok || ex.Tuple != ssa.Value(lk) || ex.Index != 1 {
+			return 0, 0, false
+		}
+		notFound := b.Succs[1]
+		if !(notFound == upd.Block() || notFound.Dominates(upd.Block())) || !(notFound == app.Block() || notFound.Dominates(app.Block())) {
+			return 0, 0, false
+		}
+		if b.Succs[0] == upd.Block() || b.Succs[0].Dominates(upd.Block()) {
+			return 0, 0, false
+		}
+		return mapF, listF, true
+	}
+	return 0, 0, false
+}
+
+// freshCollector: ctor has one return, of a freshly allocated struct whose map field is a new map and whose
+// list field is empty (an empty literal, or left nil).
+func freshCollector(p *Prog, ctor *ssa.Function, mapF, listF int) bool {
+	if !p.InModule(ctor) || len(ctor.Blocks) != 1 {
+		return false
+	}
+	ret, ok := ctor.Blocks[0].Instrs[len(ctor.Blocks[0].Instrs)-1].(*ssa.Return)
+	if !ok || len(ret.Results) != 1 {
+		return false
+	}
+	al, ok := ret.Results[0].(*ssa.Alloc)
+	if !ok {
+		return false
+	}
+	mapOK := false
+	for _, r := range *al.Referrers() {
+		fa, ok := r.(*ssa.FieldAddr)
+		if !ok {
+			if _, isRet := r.(*ssa.Return); isRet {
+				continue
+			}
+			if _, isDbg := r.(*ssa.DebugRef); isDbg {
+				continue
+			}
+			return false
+		}
+		for _, rr := range *fa.Referrers() {
+			st, ok := rr.(*ssa.Store)
+			if !ok || st.Addr != ssa.Value(fa) {
+				return false
+			}
+			switch fa.Field {
+			case mapF:
+				if _, isMake := st.Val.(*ssa.MakeMap); !isMake {
+					return false
+				}
+				mapOK = true
+			case listF:
+				// []T{} — a slice of a zero-length array — or nil
+				switch v := st.Val.(type) {
+				case *ssa.Const:
+					if !v.IsNil() {
+						return false
+					}
+				case *ssa.Slice:
+					a, ok := v.X.(*ssa.Alloc)
+					if !ok {
+						return false
+					}
+					if at, ok := a.Type().Underlying().(*types.Pointer).Elem().Underlying().(*types.Array); !ok || at.Len() != 0 {
+						return false
+					}
+				case *ssa.MakeSlice:
+					if k, ok := v.Len.(*ssa.Const); !ok || k.Value == nil || k.Int64() != 0 {
+						return false
+					}
+				default:
+					return false
+				}
+			default:
+				return false
+			}
+		}
+	}
+	return mapOK
+}
+
+// innermostRangeLoop: the innermost full-range loop (for … range coll) whose body contains block b.
+func innermostRangeLoop(fn *ssa.Function, b *ssa.BasicBlock) (*ssa.BasicBlock, ssa.Value) {
+	var best *ssa.BasicBlock
+	var bestColl ssa.Value
+	for _, h := range fn.Blocks {
+		if !isLoopHeader(h) || !naturalLoop(h)[b] {
+			continue
+		}
+		ifi, ok := h.Instrs[len(h.Instrs)-1].(*ssa.If)
+		if !ok {
+			continue
+		}
+		cmp, ok := ifi.Cond.(*ssa.BinOp)
+		if !ok {
+			continue
+		}
+		ln, ok := cmp.Y.(*ssa.Call)
+		if !ok || len(ln.Call.Args) == 0 {
+			continue
+		}
+		coll := ln.Call.Args[0]
+		if isRangeIndexOf(cmp.X, coll) != nil {
+			continue
+		}
+		if best == nil || best.Dominates(h) {
+			best, bestColl = h, coll
+		}
+	}
+	return best, bestColl
 }
